@@ -90,8 +90,8 @@ CHECKS["C11"] = dict(
     technique="CrossHair+z3 solver-partitioned exhaustive fan; inductive table-pristine lemma + bounded histories vs model",
     design="§4 C11")
 CHECKS["C12"] = dict(
-    text="Bounded histories (length <=4 quick / <=6 thorough, contexts nested <=3) over arm / activate / activate+additions / remove / "
-         "enter / exit / exit-by-exception / probe load / probe loads on the real pickle and _pickle module attributes, checked after every "
+    text="Bounded histories (length <=4 quick / <=5 thorough, contexts nested <=3) over arm / activate / activate+additions / remove / "
+         "enter / enter a pre-created manager / exit / exit-by-exception / probe load / probe loads on the real pickle and _pickle module attributes, checked after every "
          "step against an explicit lifecycle model (documented protection in force => flagged probe raises and its sink is silent; context "
          "exit restores the identical pickle.load binding and touches nothing else; after remove all four bindings are the originals). "
          "Finite-state: the solver certifies the partition of the history space exhaustive.",
